@@ -114,7 +114,7 @@ Lemma draw_to_term_n_le ls n al below W H :
 Proof.
   rewrite draw_to_term_count.
   pose proof (painted_bar_rows_le W H ls 0 ltac:(lia)).
-  pose proof (draw_shift_le al ls n W H). lia.
+  pose proof (draw_shift_le al ls (N.min n H) W H). lia.
 Qed.
 
 Lemma full_pad_shift ls sh H : full_pad ls sh H = true -> 0 < sh.
@@ -182,13 +182,13 @@ Qed.
 
 Lemma dt_count_rs_model ls n al below W H : 1 <= W -> H < USIZE_MAX ->
   visual_line_count ls W <= USIZE_MAX ->
-  dt_count_rs ls n al W H = snd (fst (draw_to_term ls n al below W H)).
+  dt_count_rs ls (N.min n H) al W H = snd (fst (draw_to_term ls n al below W H)).
 Proof.
   intros HW HH Hfull. rewrite draw_to_term_count. unfold dt_count_rs, dt_shift0.
   rewrite paint_real_rs_model, vlc_rs_eq by assumption. cbn [orb].
   unfold draw_shift, bottom_shift. destruct al.
   - destruct (_ || _); lia.
-  - destruct (N.ltb_spec (visual_line_count ls W) n); cbn [andb];
+  - destruct (N.ltb_spec (visual_line_count ls W) (N.min n H)); cbn [andb];
       destruct (negb (starts_with_text ls) || existsb is_bar (painted ls W H 0)); lia.
 Qed.
 
